@@ -49,7 +49,7 @@ const (
 const tagLetters = "\x00efnps"
 
 func mkVal(tag, n int) int { return 1000*tag + n }
-func tagOf(id int) int    { return id / 1000 }
+func tagOf(id int) int     { return id / 1000 }
 
 func valName(id int) string {
 	if tagOf(id) == tagInt {
@@ -214,7 +214,7 @@ type ctl struct {
 	computes  map[int]*int32
 	vals      map[int]interface{} // the Go value behind every value name of the configuration
 	ids       []int               // the names, sorted
-	doneKey   map[int]bool // wg.Done() has been executed by the placeholder owner of this key
+	doneKey   map[int]bool        // wg.Done() has been executed by the placeholder owner of this key
 	clock     int
 	earlyWake []string // D: a Wait returned although Done had not been called
 	wd        *time.Timer
